@@ -53,7 +53,7 @@ fn declared_artifacts(field: &str, signer4: &SignedSecretKey, signer6: &SignedSe
     let sig6 = DetachedSignature::sign_binary_data(rng(seed), &signer6.primary_key, &Password::empty(), HashAlgorithm::Sha256, &b"x"[..]).and_then(|d| d.to_bytes()).unwrap_or_default();
     let body_of = |b: &[u8]| deframe_one(b).map(|(d, _)| d.body).unwrap_or_default();
     match field {
-        "packet_header_new_5octet" => { for tag in 0..64u8 { for big in bigs32 { for k in [0usize, 1, 200] { let mut p = vec![0xC0 | tag, 0xFF]; p.extend(be32(big)); p.extend(fill(k)); v.push((format!("tag {tag} declares {big}, {k} supplied"), p)); } } } }
+        "packet_header_new_5octet" => { for tag in 0..64u8 { for big in bigs32 { for k in [0usize, 1, 200, 1100, 5000] { let mut p = vec![0xC0 | tag, 0xFF]; p.extend(be32(big)); p.extend(fill(k)); v.push((format!("tag {tag} declares {big}, {k} supplied"), p)); } } } }
         "packet_header_old_4octet" => { for tag in 0..16u8 { for big in bigs32 { for k in [0usize, 1, 200] { let mut p = vec![0x80 | (tag << 2) | 2]; p.extend(be32(big)); p.extend(fill(k)); v.push((format!("old tag {tag} declares {big}, {k} supplied"), p)); } } } }
         "packet_header_new_2octet" => { for tag in 0..64u8 { for k in [0usize, 1, 200] { let mut p = vec![0xC0 | tag, 223, 255]; p.extend(fill(k)); v.push((format!("tag {tag} declares 8383, {k} supplied"), p)); } } }
         "partial_body_chunk" => { for tag in [8u8, 9, 11, 18, 20, 2, 6, 13] { for e in [0xE1u8, 0xF0, 0xFE] { for k in [0usize, 1, 200] { let mut p = vec![0xC0 | tag, e]; p.extend(fill(k)); v.push((format!("tag {tag} partial chunk 2^{}, {k} supplied", e & 0x1f), p)); } } } }
@@ -84,8 +84,9 @@ fn declared_artifacts(field: &str, signer4: &SignedSecretKey, signer6: &SignedSe
             } }
         }
         "literal_name" => { for n in [255u8, 128] { for k in [0usize, 3] { let mut b = vec![b'b', n]; b.extend(fill(k)); v.push((format!("literal name length {n}, {k} supplied"), pkt(11, &b))); } } }
-        "user_attribute_subpacket" => { for big in bigs32 { let mut b = vec![0xFFu8]; b.extend(be32(big)); b.extend([1u8, 0x10, 0, 1, 1]); v.push((format!("user attribute subpacket declares {big}"), pkt(17, &b))); } }
-        "key_v6_material_length" => { for big in bigs32 { for alg in [27u8, 1, 19, 25] { let mut b = vec![6u8, 0, 0, 0, 1, alg]; b.extend(be32(big)); b.extend(fill(40)); v.push((format!("v6 key (alg {alg}) declares {big} octets of key material"), pkt(6, &b))); let mut s = b.clone(); s.extend([0u8; 40]); v.push((format!("v6 secret key (alg {alg}) declares {big}"), pkt(5, &s))); } } }
+        "user_attribute_subpacket" => { for big in bigs32 { for extra in [0usize, 3000] { let mut b = vec![0xFFu8]; b.extend(be32(big)); b.extend([1u8, 0x10, 0, 1, 1]); b.extend(fill(extra)); v.push((format!("user attribute subpacket declares {big}, {extra} more supplied"), pkt(17, &b))); } }
+            for big in [u32::MAX] { let mut b = vec![0xFFu8]; b.extend(be32(big)); b.extend([1u8, 0x10, 0, 1, 1]); v.push((format!("user attribute subpacket declares {big}"), pkt(17, &b))); } }
+        "key_v6_material_length" => { for big in bigs32 { for alg in [27u8, 1, 19, 25, 99, 100, 22, 18] { for supplied in [40usize, 1100, 20000] { let mut b = vec![6u8, 0, 0, 0, 1, alg]; b.extend(be32(big)); b.extend(fill(supplied)); v.push((format!("v6 key (alg {alg}) declares {big} octets of key material, {supplied} supplied"), pkt(6, &b))); let mut s = b.clone(); s.extend([0u8; 40]); v.push((format!("v6 secret key (alg {alg}) declares {big}, {supplied} supplied"), pkt(5, &s))); } } } }
         "ecc_oid" => { for alg in [18u8, 19, 22] { for l in [255u8, 0, 128] { let mut b = vec![4u8, 0, 0, 0, 1, alg, l]; b.extend(fill(12)); v.push((format!("alg {alg} OID length {l}"), pkt(6, &b))); } } }
         "skesk_v6_counts" => { for c in [255u8, 0, 200] { for s in [255u8, 0, 30] { let mut b = vec![6u8, c, 9, 2, s, 3, 8]; b.extend(fill(20)); v.push((format!("SKESK v6 count {c} s2k length {s}"), pkt(3, &b))); } } }
         "pkesk_v6_counts" => { for c in [255u8, 33, 21, 0] { let mut b = vec![6u8, c, 6]; b.extend(fill(10)); v.push((format!("PKESK v6 recipient length {c}"), pkt(1, &b))); } }
